@@ -112,7 +112,10 @@ func MalformedType(rt *rapid.T) string {
 			"Decimal(99999999999999999999)", "Enum8()", "Enum8(a)", "Enum8('a')", "Enum8('a'=)", "Enum8('a'=x)", "Enum8(=1)", "Enum16('a'=1,)", "FixedString()",
 			"FixedString(x)", "FixedString(-1)", "FixedString(0)", "Interval", "IntervalFortnight", "(", ")", "()", ")(", "Array(Int8", "Array)Int8(", "Int8)",
 			"Array(Int8))", "Nullable(Array(Int8)", " Int8", "Int8 ", "int8", "", ",", "Map(String,String,String)", "Array(,)", "LowCardinality(Nullable(String))",
-			"Nullable(LowCardinality(String))", "Nullable(Array(Int8))", "Nested(a Int8)", "AggregateFunction(sum, Int8)", "Enum8('a'=1)extra", "\x00", "Array(\xff)"}).Draw(rt, "bad")
+			"Nullable(LowCardinality(String))", "Nullable(Array(Int8))", "Nested(a Int8)", "AggregateFunction(sum, Int8)", "Enum8('a'=1)extra", "\x00", "Array(\xff)",
+			// names that collapse to a lone quote, to nothing, or keep an escape
+			"Enum8('=1)", "Enum8(' = 1)", "Enum16('a' = 1, '= 2, 'c' = 3)", "Enum8('' = 1, ' = 2)", "Enum8(''' = 1)", "Enum8('a = 1)", "Enum8(a' = 1)",
+			"Tuple(' Int8)", "Tuple(a)", "Tuple(a b c)", "Map('', Int8)", "DateTime64(3, ')", "DateTime64(3, '')", "DateTime(')", "FixedString(99999999999)"}).Draw(rt, "bad")
 	case 3:
 		return string(rapid.SliceOfN(rapid.Byte(), 0, 40).Draw(rt, "bytes"))
 	case 5:
